@@ -25,7 +25,7 @@ def classes(a, spec, res):
 
 
 def subchecks(tier):
-    prof = common.full_profile(max_nodes=4, horizon=(5.0, 16.0))
+    prof = common.full_profile("C03", max_nodes=4, horizon=(5.0, 16.0))
     prof.weights.update({"self_loops": 0.6, "jockeying": 0.6, "reneging": 0.4})
     return [system_subcheck("lattice", prof, lambda spec: [Journey()], nontrivial, classes=classes,
                             n={"quick": 9600, "thorough": 50000}, rule="full lattice; observed journey vs record chain")]
